@@ -167,6 +167,31 @@ type InS struct {
 	Note   MyString `graphql:",optional"`
 }
 
+// InH has fields the builder must skip before, between and after the exposed
+// ones, next to exposed fields of the same and of other types.
+type InH struct {
+	hidden0 int64
+	A       int64
+	Skip1   string `graphql:"-"`
+	B       string
+	hidden2 string
+	C       *int64
+	Skip3   *int64 `graphql:"-"`
+	D       string `graphql:",optional"`
+	E       []string
+	hidden4 []string
+}
+
+// InH2 starts with an exported skipped field and nests InH.
+type InH2 struct {
+	Skip0 InA `graphql:"-"`
+	X     InA
+	H     InH
+	skip1 bool
+	Y     bool `graphql:"why,optional"`
+	LH    []*InH
+}
+
 type InOpt struct {
 	A *int8
 	B *MyString
@@ -198,7 +223,7 @@ var (
 	textTypes   = []reflect.Type{reflect.TypeOf(TextPair{}), reflect.TypeOf(TextArr{}), reflect.TypeOf(TextLong{})}
 	structTypes = []reflect.Type{
 		reflect.TypeOf(InA{}), reflect.TypeOf(InB{}), reflect.TypeOf(InC{}), reflect.TypeOf(InD{}),
-		reflect.TypeOf(InRec{}), reflect.TypeOf(InOpt{}), reflect.TypeOf(InS{}),
+		reflect.TypeOf(InRec{}), reflect.TypeOf(InOpt{}), reflect.TypeOf(InS{}), reflect.TypeOf(InH{}), reflect.TypeOf(InH2{}),
 	}
 )
 
@@ -356,9 +381,18 @@ func sig(t reflect.Type) string {
 		}
 		var sb strings.Builder
 		sb.WriteString("{")
-		for i, f := range fieldsOf(t) {
+		exposed := map[int]fieldModel{}
+		for _, f := range fieldsOf(t) {
+			exposed[f.idx] = f
+		}
+		for i := 0; i < t.NumField(); i++ {
 			if i > 0 {
 				sb.WriteString(",")
+			}
+			f, ok := exposed[i]
+			if !ok { // a field the builder skips
+				sb.WriteString("-:" + sig(t.Field(i).Type))
+				continue
 			}
 			sb.WriteString(f.name)
 			if f.optional {
